@@ -481,6 +481,17 @@ class Gen:
                     ind + 'r = cd'] if rng.random() < .5 else \
                    [ind + 'cd = %s' % self.v('{1: 5}'), ind + 'cd[%s] += %s' % (self.v('1'), self.e_int(d - 1)), ind + 'r = cd']
         if k < .65:
+            if rng.random() < .5:
+                # keyword arguments of a direct C call in any order, optionally after a positional prefix
+                self.lab('typed-cdef-call-kw')
+                names = ['p', 'q', 's'] + (['t'] if rng.random() < .5 else [])
+                npos = rng.choice([0, 0, 0, 1, 2])
+                pos, names = names[:npos], names[npos:]
+                rng.shuffle(names)
+
+                def val(n):
+                    return self.e_any(d - 1) if rng.random() < .5 else self.v(repr(n))
+                return [ind + 'r = cf4(%s)' % ', '.join([val(n) for n in pos] + ['%s=%s' % (n, val(n)) for n in names])]
             self.lab('typed-cdef-call')
             return [ind + 'r = cf3(%s, %s, %s)' % (self.e_int(d - 1), self.e_any(d - 1), self.v('2.5'))]
         if k < .78:
@@ -529,11 +540,15 @@ NullFile = _NullFile()
 TYPED_PRELUDE = '''
 cdef object cf3(int p, object q, double s):
     return (p, q, s)
+cdef object cf4(object p, object q, object s, object t=None):
+    return (p, q, s, t)
 '''
 
 TYPED_PRELUDE_REF = '''
 def cf3(p, q, s):
     return (int(p), q, float(s))
+def cf4(p, q, s, t=None):
+    return (p, q, s, t)
 '''
 
 
